@@ -38,12 +38,13 @@ def enc(s):
 def render_pat(p):
   lit = ''.join(ALPHA[c - 1] for c in p['lit']).replace('.', '\\.')
   # 'any*' kinds match every name with an EMPTY match (zero width): '^', an optional prefix, a starred letter
-  return dict(sub=lit, prefix='^' + lit, suffix=lit + '$', exact='^' + lit + '$', anystart='^', anyopt='^(' + lit + ')?',
+  raw = ''.join(ALPHA[c - 1] for c in p['lit'])
+  return dict(prefixany='^' + raw, subany=raw, sub=lit, prefix='^' + lit, suffix=lit + '$', exact='^' + lit + '$', anystart='^', anyopt='^(' + lit + ')?',
               anystar='x*', anylook='^(?!zz' + lit + ')', prefixopt='^' + lit + '?', prefixstar='^' + lit + '*')[p['k']]
 
 
 def gen_pat(rng):
-  return dict(k=rng.choice(['sub', 'sub', 'prefix', 'suffix', 'exact', 'sub', 'prefix', 'suffix', 'exact', 'anystart', 'anyopt', 'anystar', 'anylook', 'prefixopt', 'prefixstar']),
+  return dict(k=rng.choice(['sub', 'sub', 'prefix', 'suffix', 'exact', 'sub', 'prefix', 'suffix', 'exact', 'anystart', 'anyopt', 'anystar', 'anylook', 'prefixopt', 'prefixstar', 'prefixany', 'subany', 'prefixany']),
               lit=enc(''.join(rng.choice('abcd.') for _ in range(rng.randint(1, 3)))))
 
 
@@ -106,7 +107,7 @@ def gen_case(rng):
   cands = [base]
   for p in lits:
     lit = ''.join(ALPHA[c - 1] for c in p['lit'])
-    cands += [lit, 'x' + lit, lit + 'x', 'x' + lit + 'x']
+    cands += [lit, 'x' + lit, lit + 'x', 'x' + lit + 'x', lit.replace('.', 'x'), lit.replace('.', 'c') + 'x']
   name = rng.choice(cands)
   return storage, agg, name
 
@@ -290,6 +291,8 @@ def run(ctx):
           fh.write('[sec%d]\n' % i)
           if s['haspat']:
             fh.write('pattern = %s\n' % render_pat(s['pat']))
+          elif (len(recs) + i) % 2:
+            fh.write('pattern =\n')          # the key is there, the pattern is not: lacking a pattern all the same
           if s['hasret']:
             fh.write('retentions = %s\n' % ', '.join(render_ret(r) for r in s['rets']))
           fh.write('\n')
@@ -299,6 +302,8 @@ def run(ctx):
           fh.write('[%s]\n' % (('sec%d' % (len(agg) - 1 - i)) if len(recs) % 2 else ('agg%d' % i)))
           if a['haspat']:
             fh.write('pattern = %s\n' % render_pat(a['pat']))
+          elif (len(recs) + i) % 2 == 0:
+            fh.write('pattern =\n')
           if a['xff'] >= 0:
             fh.write('xFilesFactor = %s\n' % (a['xff'] / 100.0))
           if a['method']:
